@@ -67,9 +67,9 @@ def _inputs(seed, shard, n_graphs, n_src, n_bc):
     return out
 
 
-def _child(path, hashseed, verbose=False):
+def _child(path, hashseed, verbose=False, reverse=False):
     env = dict(os.environ, PYTHONHASHSEED=str(hashseed), PYTHONPATH=f"{REPO}:{VERIF}", PYTHONDONTWRITEBYTECODE="1")
-    p = subprocess.run([sys.executable, "-m", "vpbt.c12_child", str(path)], capture_output=True, text=True, env=env, cwd=str(VERIF), timeout=3000)
+    p = subprocess.run([sys.executable, "-m", "vpbt.c12_child", str(path)] + (["reverse"] if reverse else []), capture_output=True, text=True, env=env, cwd=str(VERIF), timeout=3000)
     if p.returncode != 0:
         raise RuntimeError(f"C12 child (hash seed {hashseed}) failed: {p.stderr[-1500:]}")
     return json.loads(p.stdout.strip().splitlines()[-1])
@@ -88,7 +88,27 @@ def compare(inputs, seeds, tag):
             if results[s][i][0] != base[i][0]:
                 fails.append((i, seeds[0], s))
                 break
-    return base, fails
+    # same hash seed, the inputs processed in the opposite order: the result for an input must not depend on what
+    # the process computed before it (module-level caches, counters shared between graphs)
+    hist = []
+    if len(inputs) > 1:
+        rev = _child(path, seeds[0], reverse=True)
+        hist = [i for i in range(len(inputs)) if rev[i][0] != base[i][0]]
+    return base, fails, hist
+
+
+def _history_witness(inputs, i, seed0, tag):
+    """smallest [x, input] whose second result differs from the input processed alone (else the whole suffix)."""
+    work = VERIF / ".work"
+    path = work / f"c12_hist_{tag}_{os.getpid()}.json"
+    strip = lambda d: {k: v for k, v in d.items() if k != "classes"}
+    path.write_text(json.dumps([inputs[i]]))
+    alone = _child(path, seed0)[0][0]
+    for j in range(len(inputs) - 1, i, -1):
+        path.write_text(json.dumps([inputs[j], inputs[i]]))
+        if _child(path, seed0)[1][0] != alone:
+            return [strip(inputs[j]), strip(inputs[i])]
+    return [strip(x) for x in inputs[i:][::-1]]
 
 
 def _explain(inp, s0, s1):
@@ -106,14 +126,20 @@ def run(spec):
     _, seed, shard, n_graphs, n_src, n_bc, seeds = spec
     col = Collector()
     inputs = _inputs(seed, shard, n_graphs, n_src, n_bc)
-    base, fails = compare(inputs, seeds, f"{seed}_{shard}")
+    base, fails, hist = compare(inputs, seeds, f"{seed}_{shard}")
     failing = {i: (a, b) for i, a, b in fails}
+    col.count("history_comparisons", len(inputs) if len(inputs) > 1 else 0)
+    for i in hist[:1]:
+        w = _history_witness(inputs, i, seeds[0], f"{seed}_{shard}")
+        col.fail(f"C12:H-{inputs[i]['kind']}", f"the result for an input depends on what the same process computed before it (inputs processed in the opposite order, same hash seed); {len(hist)} inputs affected", dict(history=w, seeds=[seeds[0]]), len(json.dumps(w)))
     for i, inp in enumerate(inputs):
         key = inp.get("graph") or inp.get("src") or inp.get("function")
         if i in failing:
             a, b = failing[i]
             msg = f"PYTHONHASHSEED={a} and {b} give different results: {_explain(inp, a, b)}"
             col.fail(f"C12:D-{inp['kind']}", msg, dict(input={k: v for k, v in inp.items() if k != 'classes'}, seeds=[a, b]), len(json.dumps(key)))
+        if len(base[i]) > 3 and base[i][3]:
+            col.count("not_evaluated_pipeline_raised", 2 if inp["kind"] != "graph" else base[i][3])
         sample = dict(kind=inp["kind"], input=(gg.graph_to_str(gg.graph_from_json(inp["graph"])) if inp["kind"] == "graph" else key), hash_seeds=len(seeds))
         col.case((inp["kind"], json.dumps(key)), len(json.dumps(key)), base[i][1] >= 2, sample=sample, classes=[inp["kind"]] + inp.get("classes", []))
     col.count("child_processes", len(seeds))
@@ -130,7 +156,18 @@ def plan(tier, seed):
 
 def replay(inp):
     seeds = inp.get("seeds", QUICK_SEEDS)
-    base, fails = compare([inp["input"]], list(seeds) + [s for s in QUICK_SEEDS if s not in seeds], "replay")
+    if "history" in inp:
+        h = inp["history"]
+        work = VERIF / ".work"
+        work.mkdir(exist_ok=True)
+        path = work / f"c12_histreplay_{os.getpid()}.json"
+        path.write_text(json.dumps([h[-1]]))
+        alone = _child(path, seeds[0])[0][0]
+        path.write_text(json.dumps(h))
+        if _child(path, seeds[0])[-1][0] != alone:
+            return [(f"C12:H-{h[-1]['kind']}", "the result for an input depends on what the same process computed before it")]
+        return []
+    base, fails, _ = compare([inp["input"]], list(seeds) + [s for s in QUICK_SEEDS if s not in seeds], "replay")
     if fails:
         i, a, b = fails[0]
         return [(f"C12:D-{inp['input']['kind']}", f"PYTHONHASHSEED={a} and {b} give different results")]
